@@ -897,6 +897,12 @@ class _ExecutorManagerThread(threading.Thread):
             except ProcessLookupError:  # pragma: no cover
                 pass
 
+        # Nobody reads the call queue anymore: close its reader so that a
+        # feeder thread blocked in the middle of sending a large task gets
+        # EPIPE and exits instead of being leaked with the queue's pipe and
+        # semaphores (see CPython gh-94777).
+        self.call_queue._reader.close()
+
     def shutdown_workers(self):
         # shutdown all workers in self.processes
 
